@@ -1191,7 +1191,7 @@ fn main() {
     }
     runner::main(Spec {
         property: "C12",
-        rule: "fit_* families: one data set per case (2..300 rows, 1..6 columns; continuous / lattice with exact ties and duplicates / clustered / few distinct points repeated / collinear with constant columns / near-duplicates = rows copied and moved by 1..3 ulps or a relative 1e-13..1e-6; fit_scaled rescales by 10^u or 2^u, 10^u in [1e-12,1e12]; 80 % f64, 20 % f32; 70/30 in fit_near_duplicates), k drawn from 2..min(8, #distinct rows) so that the data has at least k distinct rows by construction, max_iter 1..100, fitted 10 times (the k-means++ seeding uses an unseeded thread-local RNG: the 10 fits are the schedules), every fit followed by predict on the training rows and on 4..24 fresh rows (random, data rows, centroid midpoints, centroids, points on centroid segments); a fit case is non-trivial when some returned cluster had >= 2 members (a centroid is a proper mean). assign / assign_scaled: one data set of the same kinds and 10 centroid sets (k 1..8: data rows, in the box, far outside 10..1e6 spreads, coincident, means of a random partition, symmetric pairs x±v producing ties, all beyond one face, mixed, jittered rows) pushed through the filtering tree; non-trivial when some call attached rows to >= 2 centroids. assign_enum: all 4^4·8^2 = 16384 combinations of 4 rows on {0,1,2,3} and 2 centroids on {-1,0,.5,1,1.5,2,3,5}. distinct = hash of (family, width, data, k, max_iter / centroid sets)",
+        rule: "fit_* families: one data set per case (2..300 rows, 1..6 columns; continuous / lattice with exact ties and duplicates / clustered / few distinct points repeated / collinear with constant columns / near-duplicates = rows copied and moved by 1..3 ulps or a relative 1e-13..1e-6; fit_scaled rescales by 10^u or 2^u, 10^u in [1e-12,1e12]; 80 % f64, 20 % f32; 70/30 in fit_near_duplicates), k drawn from 2..min(8, #distinct rows) so that the data has at least k distinct rows by construction, max_iter 1..100, fitted 10 times (the k-means++ seeding uses an unseeded thread-local RNG: the 10 fits are the schedules), every fit followed by predict on the training rows and on 4..24 fresh rows (random, data rows, centroid midpoints, centroids, points on centroid segments); a fit case is non-trivial when some returned cluster had >= 2 members (a centroid is a proper mean). assign / assign_scaled: one data set of the same kinds and 10 centroid sets (k 1..8: data rows, in the box, far outside 10..1e6 spreads, coincident, means of a random partition, symmetric pairs x±v producing ties, all beyond one face, mixed, jittered rows) pushed through the filtering tree; non-trivial when some call attached rows to >= 2 centroids. assign_enum: all 4^4·8^2 = 16384 combinations of 4 rows on {0,1,2,3} and 2 centroids on {-1,0,.5,1,1.5,2,3,5}. distinct = hash of (family, width, data, k, max_iter / centroid sets); large: fits and assignment steps on 1025..4000 rows, assignment steps also with 257..400 centroids; parameter objects are passed to fit as clones in every second case",
         assumptions: vec![
             "the seeding RNG of KMeans::fit is an unseeded thread-local generator: a replay re-creates the data set, k and max_iter exactly but draws new initialisations (10 per replay); a schedule-dependent violation may need several replays",
             "oracle arithmetic is f64 with compensated sums on the already-rounded (f32/f64) inputs; centroids of f32 models are read back from the serde view and re-rounded to f32",
@@ -1218,7 +1218,7 @@ fn main() {
             Family::new("fit_far_offset", 600, 15000, fit_far_offset),
             Family::new("assign", 4500, 135000, assign),
             Family::new("assign_scaled", 1000, 30000, assign_scaled),
-            Family::new("large", 400, 8000, large),
+            Family::new("large", 200, 1500, large),
             Family::new("assign_enum", 16384, 16384, assign_enum).exhaustive(true, true),
         ],
         min_nontrivial: 4000,
